@@ -197,6 +197,14 @@ def initIndex (c : Ctx) : Sel :=
       lt (.raw "traces_idx.timestamp_ns") (.int c.toNs)]]))
     [.raw "trace_id", .raw "span_id"] none [.orderBy (.raw "timestamp_ns") .desc] none
 
+/-- the loop of `maybeCreateWhere`: the first error ends it -/
+def mapOk {α β} (f : α → PlanM β) : List α → PlanM (List β)
+  | [] => .ok []
+  | x :: xs =>
+    match f x with
+    | .error e => .error e
+    | .ok y => (match mapOk f xs with | .error e => .error e | .ok ys => .ok (y :: ys))
+
 /-- the random filter of complex request portions -/
 def randomFilter (c : Ctx) : List Expr :=
   let hash := eq (.raw ("cityHash64(trace_id) % " ++ toString c.rndMax)) (.int c.rndI)
@@ -204,21 +212,22 @@ def randomFilter (c : Ctx) : List Expr :=
     [or_ [hash, .isIn (.raw "trace_id") (c.cached.map (fun t => .raw ("unhex('" ++ t ++ "')")))]]
   else if c.rndMax ≠ 0 then [hash] else []
 
+/-- `aggregator`: the column of the aggregated value … -/
+def aggCol (aggAttr : String) : List Expr :=
+  if aggAttr = "" then []
+  else if aggAttr = "duration" then [.col (.call "toFloat64" [.raw "duration"]) "agg_val"]
+  else [.col (.anyIfNum (aggKey aggAttr).toUTF8.toList) "agg_val"]
+
+/-- … and, for an attribute, one more disjunct of WHERE: the rows holding that attribute -/
+def aggWhere (aggAttr : String) : List Expr :=
+  if aggAttr = "" then [] else if aggAttr = "duration" then [] else [keyIs (aggKey aggAttr)]
+
 /-- `AttrConditionPlanner.Process`: every condition is a disjunct of WHERE (`maybeCreateWhere`), the key of
     an aggregated attribute is one more; the planner object is not changed by `Process` -/
 def attrCondition (c : Ctx) (terms : List Term) (cond : Cond) (aggAttr : String) : PlanM Sel := do
-  let sqlTerms ← terms.mapM termSql
-  let wher := sqlTerms
-  let having := (condSql sqlTerms false cond).1
-  let main := initIndex c
-  let (main, wher) :=
-    if aggAttr = "" then (main, wher)
-    else if aggAttr = "duration" then
-      (main.addCols [.col (.call "toFloat64" [.raw "duration"]) "agg_val"], wher)
-    else
-      let k := aggKey aggAttr
-      (main.addCols [.col (.anyIfNum k.toUTF8.toList) "agg_val"], wher ++ [keyIs k])
-  let res := (main.andWhere [or_ wher]).andHaving [having]
+  let sqlTerms ← mapOk termSql terms
+  let res := ((((initIndex c).addCols (aggCol aggAttr)).andWhere [or_ (sqlTerms ++ aggWhere aggAttr)]).andHaving
+    [(condSql sqlTerms false cond).1])
   pure (match randomFilter c with | [] => res | f => res.andWhere f)
 
 /-- `AttrlessConditionPlanner.Process` -/
